@@ -119,8 +119,9 @@ package updown
 //@     invariant forall(t, 0, len(LudL), LudL[t].idx == t)
 //@   loop 2:
 //@     invariant len(snpPos) == len(snps) && disjoint(snpPos, LudL) && forall(t, 0, len(LudL), LudL[t].idx == t)
-//@   ensures [rows] implies(result2 == nil, len(result1) == len(lines(r)) - 1 && forall(t, 0, len(result1), result1[t].idx == t))
-//@   ensures [c18.empty] implies(len(lines(r)) == 0, result2 != nil)
+//@   ensures [idx] implies(result2 == nil, forall(t, 0, len(result1), result1[t].idx == t))
+//@   ensures [local.rows] implies(result2 == nil, len(result1) == len(lines(r)) - 1)
+//@   ensures [local.c18.empty] implies(len(lines(r)) == 0, result2 != nil)
 
 //@ func readCSVToUDLChan
 //@   modifies cudL, cErr, cReadDone
@@ -195,7 +196,6 @@ package updown
 
 //@ # checkArgs: the option-normalisation table of the property statement
 //@ func checkArgs
-//@   requires sizetotal >= 0
 //@   ensures [nothing] implies(sizetotal == 0 && sizeup == 0 && sizedown == 0 && sizeside == 0 && sizesame == 0 && distpush == 0 && distup == 0 && distdown == 0 && distside == 0 && distall == 0, result3 != nil)
 //@   ensures [total.split] implies(result3 == nil && sizetotal > 0, result1[1] == sizetotal / 4 && result1[2] == sizetotal / 4 && result1[3] == sizetotal / 4 && result1[0] == sizetotal - 3 * (sizetotal / 4))
 //@   ensures [total.sum] implies(result3 == nil && sizetotal > 0, result1[0] + result1[1] + result1[2] + result1[3] == sizetotal)
@@ -266,3 +266,11 @@ package updown
 //@     invariant implies(len(neighbours.side.catchment) == sizetotal, neighbours.side.maxDist == neighbours.side.catchment[sizetotal-1].distance && neighbours.side.minAmbig == neighbours.side.catchment[sizetotal-1].ambCount && forall(a, 0, sizetotal, forall(b, a + 1, sizetotal, !udLess(neighbours.side.catchment[b].distance, neighbours.side.catchment[b].ambCount, neighbours.side.catchment[a].distance, neighbours.side.catchment[a].ambCount))))
 //@   ensures len(sent(cOut)) == 1 && sent(cOut)[0].qname == q.id && sent(cOut)[0].qidx == q.idx
 //@   ensures [cap] len(sent(cOut)[0].same.catchment) + len(sent(cOut)[0].up.catchment) + len(sent(cOut)[0].down.catchment) + len(sent(cOut)[0].side.catchment) <= ite(sizeArray[0] == 2147483647 || sizeArray[1] == 2147483647 || sizeArray[2] == 2147483647 || sizeArray[3] == 2147483647, 2147483647, sizeArray[0] + sizeArray[1] + sizeArray[2] + sizeArray[3])
+
+//@ # C18: validation prefixes of the entry points
+//@ func List prefix
+//@   modifies everything
+//@   after if#2: assert [c18.oneref] len(temp) == 1
+//@ func TopRanking prefix
+//@   modifies everything
+//@   after if#1: assert [c18.args] err == nil
